@@ -9,8 +9,9 @@ import (
 )
 
 type Query struct {
-	Label string // e.g. "data.len", "data[3]", "interp.Registers[7]"
+	Label string // e.g. "data.len", "data[3]", "*interp.Registers[7]", "post:*interp.Registers[7]"
 	T     Term
+	Typ   types.Type // Go type of scalar values (nil for synthetic components such as .len)
 }
 
 const modelElems = 40
@@ -29,8 +30,29 @@ func (x *Exec) modelQueries(params []ParamInfo, results []ParamInfo) []Query {
 	return qs
 }
 
+// postQueries: scalar contents of the objects reachable through pointer parameters in the final state.
+func (x *Exec) postQueries(params []ParamInfo, final *State) []Query {
+	var qs []Query
+	st := final.Clone()
+	for _, p := range params {
+		if _, ok := p.Val.(PtrV); !ok {
+			continue
+		}
+		var sub []Query
+		x.queriesFor(&sub, st, p.Name, p.Val, p.Typ, 0)
+		for _, q := range sub {
+			if q.Typ == nil || strings.HasSuffix(q.Label, ".ref") {
+				continue
+			}
+			q.Label = "post:" + q.Label
+			qs = append(qs, q)
+		}
+	}
+	return qs
+}
+
 func (x *Exec) queriesFor(qs *[]Query, st *State, label string, v Val, t types.Type, depth int) {
-	if depth > 3 || len(*qs) > 600 {
+	if depth > 5 || len(*qs) > 1500 {
 		return
 	}
 	x.C.noName++
@@ -42,7 +64,7 @@ func (x *Exec) queriesFor(qs *[]Query, st *State, label string, v Val, t types.T
 		if len(v.Path) != 0 {
 			return
 		}
-		*qs = append(*qs, Query{label + ".ref", v.Base})
+		*qs = append(*qs, Query{Label: label + ".ref", T: v.Base})
 		if st == nil {
 			return
 		}
@@ -56,16 +78,16 @@ func (x *Exec) queriesFor(qs *[]Query, st *State, label string, v Val, t types.T
 }
 
 func (x *Exec) queriesForTerm(qs *[]Query, st *State, label string, t Term, typ types.Type, depth int) {
-	if depth > 4 || len(*qs) > 600 {
+	if depth > 7 || len(*qs) > 1500 {
 		return
 	}
 	switch u := typ.Underlying().(type) {
 	case *types.Basic:
 		if t.Sort.BVWidth() > 0 || t.Sort == SBool {
-			*qs = append(*qs, Query{label, t})
+			*qs = append(*qs, Query{Label: label, T: t, Typ: typ})
 		}
 	case *types.Slice:
-		*qs = append(*qs, Query{label + ".len", SlLen(t)}, Query{label + ".cap", SlCap(t)}, Query{label + ".nil", Eq(SlBase(t), BVInt(0, 32))})
+		*qs = append(*qs, Query{Label: label + ".len", T: SlLen(t)}, Query{Label: label + ".cap", T: SlCap(t)}, Query{Label: label + ".nil", T: Eq(SlBase(t), BVInt(0, 32))})
 		if st == nil {
 			return
 		}
@@ -73,7 +95,7 @@ func (x *Exec) queriesForTerm(qs *[]Query, st *State, label string, t Term, typ 
 			r, hs := x.elemRegion(u.Elem())
 			h := x.heapGet(st, r, hs)
 			for i := 0; i < modelElems; i++ {
-				*qs = append(*qs, Query{fmt.Sprintf("%s[%d]", label, i), Select(Select(h, SlBase(t)), bvBin("bvadd", SlOff(t), BVInt(int64(i), 64)))})
+				*qs = append(*qs, Query{Label: fmt.Sprintf("%s[%d]", label, i), T: Select(Select(h, SlBase(t)), bvBin("bvadd", SlOff(t), BVInt(int64(i), 64))), Typ: u.Elem()})
 			}
 		}
 	case *types.Array:
@@ -90,17 +112,17 @@ func (x *Exec) queriesForTerm(qs *[]Query, st *State, label string, t Term, typ 
 			x.queriesForTerm(qs, st, label+"."+u.Field(i).Name(), App(si.FSorts[i], si.Fields[i], t), u.Field(i).Type(), depth+1)
 		}
 	case *types.Pointer:
-		*qs = append(*qs, Query{label + ".ref", t})
-		if st != nil && depth < 2 {
+		*qs = append(*qs, Query{Label: label + ".ref", T: t})
+		if st != nil && depth < 4 {
 			p := x.PtrFromTerm(t, typ)
 			if lv, err := x.Load(st, p); err == nil {
 				x.queriesFor(qs, st, "*"+label, lv, u.Elem(), depth+1)
 			}
 		}
 	case *types.Interface:
-		*qs = append(*qs, Query{label + ".isnil", Eq(t, x.C.zeroOfSort(SIface, nil))})
-	case *types.Map:
-		*qs = append(*qs, Query{label + ".ref", t})
+		*qs = append(*qs, Query{Label: label + ".isnil", T: Eq(t, x.C.zeroOfSort(SIface, nil))})
+	case *types.Map, *types.Signature:
+		*qs = append(*qs, Query{Label: label + ".ref", T: t})
 	}
 }
 
